@@ -21,7 +21,7 @@ from sim import world as Wd
 ID = 'C20'
 LEVEL = 'exploration'
 ENGINE = 'differential'
-BUDGET = {'quick': 1500, 'thorough': 80000}
+BUDGET = {'quick': 4000, 'thorough': 80000}
 WALL = {'quick': 45, 'thorough': 1500}
 RULE = ('one foreign .trashinfo per case (absolute / relative Path, percent-escapes of arbitrary bytes, raw +, duplicate keys, extra keys and '
         'sections, missing header, CRLF, trailing blanks) in the home trash (home on / or on its own volume), .Trash/$uid, .Trash-$uid or a '
